@@ -32,12 +32,14 @@ def dispatch (st : DState) (line : String) : DState × String :=
   | "terminals" :: args => (st, withArt st args fun a _ => some (opTerminals a))
   | "scan" :: args => (st, withArt st args opScan)
   | "c05oracle" :: args => (st, withArt st args fun a _ => some (opC05 a))
+  | "lritems" :: args => (st, withArt st args fun a _ => some (opLRItems a))
   | "validate" :: args => (st, withArt st args fun a _ => some (opValidate a))
   | "earley" :: args => (st, withArt st args opEarley)
   | "tree" :: args => (st, withArt st args opTree)
   | "refscan" :: args => (st, withArt st args opRefScan)
   | "lexeq" :: args => (st, withArt st args fun a _ => some (opLexEq a))
   | "parse" :: args => (st, withArt st args opParse)
+  | "feparse" :: args => (st, (opFeParse args).getD "bad-op")
   | "c08oracle" :: args => (st, (c08Oracle args).getD "bad-op")
   | op :: args =>
     match unitOp op args with
